@@ -87,8 +87,11 @@ func c05SCION(r *ev.Run, rng *rand.Rand, nScripts int) {
 		p.srv = s
 		c := &client.SCIONClient{Log: log, InterleavedMode: inter}
 		name := "scion-client"
+		c05Spy = nil
 		if inter {
 			name = "scion-client(interleaved)"
+			c05Spy = &c03Spy{}
+			c.Filter = c05Spy
 		}
 		pth := handPath(rng, c05LIA, c05RIA, s.Addr, 0)
 		muts := c05HeaderMuts(rng, false)
